@@ -66,6 +66,7 @@ CornerFiresAtOnce == \A k \in DOMAIN calls : (calls[k].r <= 0 /\ Kind(calls[k].o
    round lasts 1 s, not "1s, 2s, 3s").  On relative time (constructors without genesis) every round has its r seconds. *)
 EnteredAtTimeout(k) == \E j \in 1..(k - 1) : /\ calls[j].o = calls[k].o /\ calls[j].r = calls[k].r - 1
                                              /\ calls[j].nf > 0 /\ calls[j].fat = calls[k].t /\ calls[j].ft = calls[k].t
+                                             /\ \A i \in 1..j : \A a \in calls[i].set : a > calls[i].t     \* nothing was late before
 QbftRoundHasTime == \A k \in DOMAIN calls :
                       (Kind(calls[k].o) = "eager" /\ {j \in 1..(k - 1) : calls[j].o = calls[k].o /\ calls[j].r = calls[k].r} = {}
                        /\ EnteredAtTimeout(k)) => \A a \in calls[k].set : a > calls[k].t
